@@ -144,8 +144,13 @@ def run(ctx, lean_ok):
     try:
         T = data2lean.load_tables(common.REPO)
     except data2lean.Refused as e:
-        T = None
         ctx.oblige('independent parse of the tables / CSV files', False, str(e))
+        # failing-input search: the table itself may still be readable; the documented meaning of an entry
+        # [factor, offset, unit] is value * factor + offset, whatever formula the source now applies
+        try:
+            T = data2lean.load_tables(common.REPO, strict=False)
+        except data2lean.Refused:
+            T = None
     lines = []       # driver requests
     after = []       # (index, callback(resp)) evaluated once the driver has answered
 
@@ -539,8 +544,9 @@ def run(ctx, lean_ok):
                             for w, u in zip(want, ulist):
                                 split += [w] if w is not None else list(u)
                             if got == split:
-                                ctx.violation('convert-units-label-split', 'convert_units returns the label of an unrecognised (here: standard) unit split into '
-                                              'characters (`out_units += units[i]`)', dict(case, want=exp))
+                                # the VALUES are returned unchanged, which is what the property demands; the garbled label is an
+                                # observation (DESIGN §9.7)
+                                ctx.count('observation:convert-units-label-split')
                             else:
                                 ctx.violation('ambient-unit-label', 'convert_units does not return the unit label of a standard unit unchanged', dict(case, want=exp))
                         continue
